@@ -56,6 +56,11 @@ def gen_grammars(prop, tier, n, profile):
         for k, total in enumerate([62, 63, 64, 126, 127]):
             h = gg.pad_terms(base[(k * 5 + common.seed()) % len(base)], total)
             if h is not None: core.append(h)
+        # every term of a grammar in turn at index 64 (first bit of the second word of the term bit sets), one grammar at 63/128
+        for gi_, b in enumerate([base[common.seed() % len(base)], base[(common.seed() * 3 + 7) % len(base)], base[(common.seed() * 5 + 11) % len(base)]]):
+            for j in range(len(b.terms)):
+                h = gg.pad_front(b, (64 if gi_ < 2 else (63 if j % 2 else 128)) - j)
+                if h is not None: core.append(h)
     if profile == 'plain':
         for g in core: add(g)
         for g in core[:12]: add(gg.shuffle_symbols(g, rnd))
@@ -97,7 +102,7 @@ def gen_grammars(prop, tier, n, profile):
             g, tb = next(st)
             x = rnd.random()
             if x < 0.3: g = gg.add_error_rules(g, rnd)
-            g = gg.decorate(g, rnd, typed=0.4, regexes=(0.3 if rnd.random() < 0.4 else 0))
+            g = gg.decorate(g, rnd, typed=0.4, regexes=(0.3 if rnd.random() < 0.4 else 0), ctx=(0.4 if rnd.random() < 0.3 else 0.0))     # some with contextual (>>=) functors
             if rnd.random() < 0.3:
                 g.vtypes = ['M'] * len(g.nts); g.tvtype = 'M'
                 g.rules = [gg.Rule(r.lhs, r.rhs, r.prec, 'f') for r in g.rules]
@@ -122,6 +127,9 @@ def gen_grammars(prop, tier, n, profile):
             if rnd.random() < 0.6: g = multiline_terms(g, rnd)
             if rnd.random() < 0.25: g = newline_term(g, rnd)
             if gg.classify(ref_lr1.build(g)) in ('rr', 'acc'): continue
+            if rnd.random() < 0.15 and all(t.kind == 'c' for t in g.terms):
+                # positions are the parser's business also when the lexemes come from a custom lexer (lexemes that swallow newlines included)
+                g = gg.to_custom_lexer(g, rnd)
             add(g)
     elif profile == 'precedence':   # C05
         for g in core:
@@ -429,7 +437,7 @@ def c14(tier):
 def c16(tier):
     ck = Check('C16', tier)
     q = tier == 'quick'
-    cfg = {'modes': [0, 1, 2, 5, 6], 'exh_cap': 100 if q else 300, 'exh_len': 4, 'n_rand': 30, 'n_mut': 40, 'long': (30, 100) if q else (100, 500)}
+    cfg = {'modes': [0, 1, 2, 5, 6, 8, 9, 12, 13], 'exh_cap': 100 if q else 300, 'exh_len': 4, 'n_rand': 30, 'n_mut': 40, 'long': (30, 100) if q else (100, 500), 'n_ws': 30, 'ws': 0.5}
     merge(ck, run_pipeline('C16', tier, gen_grammars('C16', tier, 160 if q else 2000, 'verbose'), cfg))
     ck.cov['rule'] = ('each (grammar,input) runs under verbose on/off x {no stream, std::ostringstream, user stream type}; results and functor logs must be identical; the verbose text is '
                       'parsed into recognised/shift/reduce/goto/recovery events and compared with the action sequence of the reference driver (states renamed through the table '
@@ -451,7 +459,9 @@ def c03(tier):
     seeded = rxc.gen_patterns(rnd, 40000 if q else 1500000, max_positions=60 if q else 90)
     jobs = [('C03', c, True, 'clang1') for c in chunks(corpus, 700)] + [('C03', c, False, 'clang1') for c in chunks(seeded, 4000)]
     merge(ck, common.pmap(rxc.judge_batch, jobs))
-    ct = rxc.gen_patterns(rnd, 64 if q else 1024, max_positions=20) + [x for x in rxc.rr.hand_corpus() if rxc.rr.positions_count(x[0]) <= 40]
+    # blanks are ordinary pattern characters (the pattern front end must not skip them, whatever entry point builds the automaton)
+    blanks = [(rxc.rr.parse(t), t) for t in (b'k v', b'x *y', b'end if', b'a b+c', b'( a| b)c ', b' [a-c] {2}')]
+    ct = blanks + rxc.gen_patterns(rnd, 64 if q else 1024, max_positions=20) + [x for x in rxc.rr.hand_corpus() if rxc.rr.positions_count(x[0]) <= 40]
     merge(ck, common.pmap(rxc.judge_ct, [('C03', c, 'clang', common.seed() + i) for i, c in enumerate(chunks(ct, 16))]))
     ck.cov['rule'] = ('patterns generated from ASTs over every documented construct (plus a fixed corpus: documentation/tests/examples, all ASTs with <= 2 primaries over {a,b}, 600 fixed-seed patterns); '
                       'the real pattern lexer+grammar+dfa_builder run on each pattern (at run time in harness memory, and during constant evaluation for a sample); the automaton read from memory is '
@@ -584,7 +594,7 @@ def c05(tier):
 def c08(tier):
     ck = Check('C08', tier)
     q = tier == 'quick'
-    cfg = {'modes': [0, 1], 'exh_cap': 200 if q else 500, 'exh_len': 5, 'n_rand': 40, 'n_mut': 200 if q else 500, 'long': (20, 60) if q else (60, 300), 'n_ws': 6, 'n_raw': 4}
+    cfg = {'modes': [0, 1, 11], 'exh_cap': 200 if q else 500, 'exh_len': 5, 'n_rand': 40, 'n_mut': 200 if q else 500, 'long': (20, 60) if q else (60, 300), 'n_ws': 6, 'n_raw': 4}
     merge(ck, run_pipeline('C08', tier, gen_grammars('C08', tier, 160 if q else 2000, 'recovery'), cfg))
     ck.cov['rule'] = ('grammars with the error symbol in statement-list, bracketed, first/last and nested positions (fixed corpus + error rules added to random LR(1) grammars); inputs: all short strings and '
                       'derivable inputs with tokens inserted/deleted/replaced/duplicated; observed result, surviving values (functor log), error reports and verbose recovery steps are compared with a '
@@ -896,7 +906,7 @@ def replay(prop, path):
         if isinstance(case, dict) and case.get('grammar') and prop in pipeline.JUDGES:
             from .grammar import Grammar
             g = Grammar.from_json(case['grammar'])
-            modes = {'C01': [0], 'C02': [0, 3, 4], 'C05': [0], 'C08': [0, 1], 'C09': [0, 3, 4, 8, 9], 'C10': [0, 3, 4, 7, 8, 9], 'C11': [1], 'C13': [0, 20, 21, 22, 23, 24, 25, 26, 27, 28, 29, 30, 31], 'C14': [0], 'C16': [0, 1, 2, 5, 6], 'C18': [0, 1, 3, 4, 7, 8, 9]}[prop]
+            modes = {'C01': [0], 'C02': [0, 3, 4], 'C05': [0], 'C08': [0, 1, 11], 'C09': [0, 3, 4, 8, 9], 'C10': [0, 3, 4, 7, 8, 9], 'C11': [1], 'C13': [0, 20, 21, 22, 23, 24, 25, 26, 27, 28, 29, 30, 31], 'C14': [0], 'C16': [0, 1, 2, 5, 6, 8, 9, 12, 13], 'C18': [0, 1, 3, 4, 7, 8, 9]}[prop]
             inputs = [case['input']] if case.get('input') is not None else ['']
             spec = {'prop': prop, 'grammars': [g.to_json()], 'seed': 1, 'flavour': 'clang', 'cfg': {'modes': modes, 'timeout': 300}, 'explicit_inputs': [inputs]}
             outs = [pipeline.worker(spec)]
